@@ -160,7 +160,7 @@ func init() {
 		ID:          "C21",
 		Explanation: "RC7c: an option that fails in lenient/unlinked mode and is kept as uninterpreted leaves no trace in the accumulated options message — either (A) on every acyclic path of interpretOptions through the true edge of interp.lenientErrReported the message passed to interpretField is restored from a proto.Clone snapshot taken before the call (paths with interp.lenient false are pruned there, by RH8), or (B) interpretField/setOptionField never call anything lenience-fallible after modifying msg. RH8: interp.reporter.HandleError* is called only inside the three lenience-aware wrappers, each of which starts with `if lenienceEnabled { lenientErrReported = true; return nil }`; the flags are written only there and in enableLenience. RC7: every proto.Merge into a caller-visible message is preceded on all paths by proto.Reset of the same message (fresh local clones exempt), and in interpreter.interpretOptions no call executes after the caller's options message was first modified (all fallible work happens on the scratch message).",
 		NotDecided:  "equality of values across modes; partial population of the scratch message before a lenient error",
-		Rules:       []func(*World){rh8Lenience, rc7LenientCommit, rc7cPerOptionAtomicity},
+		Rules:       []func(*World){rh8Lenience, rc7LenientCommit, rc7cPerOptionAtomicity, rc7dInPlaceRemoval},
 	})
 	register(&Property{
 		ID:          "C23",
